@@ -6,6 +6,8 @@ import FeatModel.Lemmas.C01Bcsr
 import FeatModel.Lemmas.C01Sizes
 import FeatModel.Lemmas.C01Meta
 import FeatModel.Lemmas.C01Round
+import FeatModel.Lemmas.C01MetaVec
+import FeatModel.Lemmas.C01Index32
 import FeatModel.Model.LA.Cscr
 import Mathlib.Algebra.Order.Field.Rat
 import Mathlib.Algebra.Order.Ring.Abs
@@ -616,7 +618,7 @@ theorem C01.meta_leaf_csr (A : Csr Rat) (hA : A.wf = true) : (MetaMat.csr A).Ok 
       refine ⟨r', e, by simpa [MetaMat.rows, MetaMat.cols] using Csr.applyAxpy_size _ A x y r r' al ali false e, ?_⟩
       intro i hi
       rw [v i hi]; simp [baseOf, MetaMat.dot, MetaMat.entry, MetaMat.cols]
-  · intro ax x y r ali h1 h2 h3 h4 h5
+  · intro _ ax x y r ali h1 h2 h3 h4 h5
     cases ax with
     | none =>
       obtain ⟨r', e, v⟩ := C01.csr_applyQ_spec A hA x r true h2 h4
@@ -644,7 +646,7 @@ theorem C01.meta_leaf_bcsr (A : Bcsr Rat) (hA : A.wf = true) (hbh : 0 < A.bh) (h
       refine ⟨r', e, by simpa [MetaMat.rows, MetaMat.cols] using Bcsr.applyAxpy_size _ A x y r r' al ali false e, ?_⟩
       intro i hi
       rw [v i hi]; simp [baseOf, MetaMat.dot, MetaMat.entry, MetaMat.cols]
-  · intro ax x y r ali h1 h2 h3 h4 h5
+  · intro _ ax x y r ali h1 h2 h3 h4 h5
     cases ax with
     | none =>
       obtain ⟨r', e, v⟩ := C01.bcsr_applyQ_spec A hA hbh hbw x r true h2 h4
@@ -672,7 +674,7 @@ theorem C01.meta_leaf_dense (A : Dense Rat) (_hA : A.wf = true) (h1r : 0 < A.row
       refine ⟨r', e, by simpa [MetaMat.rows, MetaMat.cols] using Dense.applyAxpy_size _ A x y r r' al ali false e, ?_⟩
       intro i hi
       rw [v i hi]; simp [baseOf, MetaMat.dot, MetaMat.entry, MetaMat.cols]
-  · intro ax x y r ali h1 h2 h3 h4 h5
+  · intro _ ax x y r ali h1 h2 h3 h4 h5
     cases ax with
     | none =>
       obtain ⟨r', e, v⟩ := C01.dense_applyQ_spec A x r true ⟨h1r, h1c⟩ h2 h4
@@ -685,27 +687,131 @@ theorem C01.meta_leaf_dense (A : Dense Rat) (_hA : A.wf = true) (h1r : 0 < A.row
       intro i hi
       rw [v i hi]; simp [baseOf, MetaMat.dot, MetaMat.entry, MetaMat.rows]
 
+theorem C01.meta_leaf_cscr (A : Cscr Rat) (hA : A.wf = true) : (MetaMat.cscr A).Ok := by
+  constructor
+  · intro ax x y r ali h1 h2 h3 h4 h5
+    cases ax with
+    | none =>
+      obtain ⟨r', e, v⟩ := C01.cscr_applyQ_spec A hA x r false h2 h4
+      refine ⟨r', e, ?_, ?_⟩
+      · simpa [MetaMat.rows, MetaMat.cols] using Cscr.apply_size _ A x r r' false e
+      · intro i hi
+        rw [v i hi]; simp [baseOf, MetaMat.dot, MetaMat.entry, MetaMat.cols]
+    | some al =>
+      obtain ⟨r', e, v⟩ := C01.cscr_applyAxpyQ_spec A hA x y r al (h1 al rfl) ali false h2 (h3 rfl) h4 h5
+      refine ⟨r', e, ?_, ?_⟩
+      · simpa [MetaMat.rows, MetaMat.cols] using Cscr.applyAxpy_size _ A x y r r' al ali false e
+      · intro i hi
+        rw [v i hi]; simp [baseOf, MetaMat.dot, MetaMat.entry, MetaMat.cols]
+  · intro _ ax x y r ali h1 h2 h3 h4 h5
+    cases ax with
+    | none =>
+      obtain ⟨r', e, v⟩ := C01.cscr_applyQ_spec A hA x r true h2 h4
+      refine ⟨r', e, ?_, ?_⟩
+      · simpa [MetaMat.rows, MetaMat.cols] using Cscr.apply_size _ A x r r' true e
+      · intro i hi
+        rw [v i hi]; simp [baseOf, MetaMat.dot, MetaMat.entry, MetaMat.rows]
+    | some al =>
+      obtain ⟨r', e, v⟩ := C01.cscr_applyAxpyQ_spec A hA x y r al (h1 al rfl) ali true h2 (h3 rfl) h4 h5
+      refine ⟨r', e, ?_, ?_⟩
+      · simpa [MetaMat.rows, MetaMat.cols] using Cscr.applyAxpy_size _ A x y r r' al ali true e
+      · intro i hi
+        rw [v i hi]; simp [baseOf, MetaMat.dot, MetaMat.entry, MetaMat.rows]
+
+theorem C01.meta_leaf_banded (A : Banded Rat) (hA : A.wf = true) (hne : 0 < A.rows) : (MetaMat.banded A).Ok := by
+  constructor
+  · intro ax x y r ali h1 h2 h3 h4 h5
+    cases ax with
+    | none =>
+      obtain ⟨r', e, v⟩ := C01.banded_applyQ_spec A hA x r h2 h4 hne
+      refine ⟨r', e, ?_, ?_⟩
+      · simpa [MetaMat.rows] using Banded.apply_size _ A x r r' e
+      · intro i hi
+        rw [v i hi]; simp [baseOf, MetaMat.dot, MetaMat.entry, MetaMat.cols]
+    | some al =>
+      obtain ⟨r', e, v⟩ := C01.banded_applyAxpyQ_spec A hA x y r al (h1 al rfl) ali h2 (h3 rfl) h4 hne h5
+      refine ⟨r', e, ?_, ?_⟩
+      · simpa [MetaMat.rows] using Banded.applyAxpy_size _ A x y r r' al ali e
+      · intro i hi
+        rw [v i hi]; simp [baseOf, MetaMat.dot, MetaMat.entry, MetaMat.cols]
+  · intro h
+    simp [MetaMat.noBanded] at h
+
 /-- **Meta-matrices** (`PowerRow/Col/Diag/FullMatrix`, `TupleMatrix(Row)`, `SaddlePointMatrix`, arbitrarily nested over
-    CSR / BCSR / dense leaves): by structural induction over the first/rest recursion, every `apply` member
+    CSR / BCSR / CSCR / banded / dense leaves; the transposed members for trees without a banded leaf, which does
+    not offer them): by structural induction over the first/rest recursion, every `apply` member
     (`ax = none`: `apply(r, x)`; `ax = some alpha`, `|alpha| ≥ eps`: `apply(r, x, y, alpha)`; `tr`: transposed; with or
     without `r` aliasing `y`) returns normally with the product of the **block matrix of its parts**
     (`MetaMat.entry`) on the concatenated Tuple/Power vectors. -/
 theorem C01.metamat_apply_eq (M : MetaMat Rat) (hM : M.wf = true) (tr : Bool) (ax : Option Rat)
     (hax : ∀ al, ax = some al → epsQ ≤ |al|) (x y r : Array Rat) (ali : Bool)
     (hr : r.size = if tr then M.cols else M.rows) (hy : ax.isSome = true → y.size = if tr then M.cols else M.rows)
-    (hx : x.size = if tr then M.rows else M.cols) (hry : ali = true → r = y) :
+    (hx : x.size = if tr then M.rows else M.cols) (hry : ali = true → r = y)
+    (hnb : tr = true → M.noBanded = true) :
     ∃ r', M.goQ tr ax x y r ali = some r' ∧ r'.size = (if tr then M.cols else M.rows) ∧
       ∀ i, i < (if tr then M.cols else M.rows) → r'.getD i 0 =
         (match ax with | none => 0 | some _ => y.getD i 0) + ax.getD 1 *
           (if tr then ∑ k ∈ range M.rows, M.entry k i * x.getD k 0 else ∑ k ∈ range M.cols, M.entry i k * x.getD k 0) := by
-  have ok := MetaMat.ok_of_leaves C01.meta_leaf_csr C01.meta_leaf_bcsr C01.meta_leaf_dense M hM
+  have ok := MetaMat.ok_of_leaves C01.meta_leaf_csr C01.meta_leaf_bcsr C01.meta_leaf_dense C01.meta_leaf_cscr
+    C01.meta_leaf_banded M hM
   cases tr
   · simp only [Bool.false_eq_true, if_false] at hr hy hx ⊢
     obtain ⟨r', e1, e2, e3⟩ := ok.1 ax x y r ali hax hr hy hx hry
     exact ⟨r', e1, e2, fun i hi => by rw [e3 i hi]; cases ax <;> simp [baseOf, MetaMat.dot]⟩
   · simp only [if_true] at hr hy hx ⊢
-    obtain ⟨r', e1, e2, e3⟩ := ok.2 ax x y r ali hax hr hy hx hry
+    obtain ⟨r', e1, e2, e3⟩ := ok.2 (hnb rfl) ax x y r ali hax hr hy hx hry
     exact ⟨r', e1, e2, fun i hi => by rw [e3 i hi]; cases ax <;> simp [baseOf, MetaMat.dot]⟩
+
+/-- **The early-out / eps-envelope clause for every leaf format and both directions.** For `|alpha| < eps` (this includes
+    `alpha = 0`) `apply(r, x, y, alpha)` and `apply_transposed(r, x, y, alpha)` of CSR, CSCR, BCSR, banded and dense
+    matrices return `y` itself (for the banded format even in the transposed direction: the early-out comes before the
+    "not implemented" abort), and the exact result `y + alpha·A x` (resp. `Aᵀ x`) differs from it componentwise by at most
+    `eps·(|A||x|)_i` — the property's rounding envelope. -/
+theorem C01.tiny_alpha_envelope (alpha : Rat) (hal : |alpha| < epsQ) (x y r : Array Rat) (ali tr : Bool)
+    (hry : ali = true → r = y) :
+    (∀ A : Csr Rat, r.size = (if tr then A.cols else A.rows) → y.size = (if tr then A.cols else A.rows) →
+        x.size = (if tr then A.rows else A.cols) → A.applyAxpyQ x y r alpha ali tr = some y) ∧
+    (∀ A : Cscr Rat, r.size = (if tr then A.cols else A.rows) → y.size = (if tr then A.cols else A.rows) →
+        x.size = (if tr then A.rows else A.cols) → A.applyAxpyQ x y r alpha ali tr = some y) ∧
+    (∀ A : Bcsr Rat, r.size = (if tr then A.cols * A.bw else A.rows * A.bh) →
+        y.size = (if tr then A.cols * A.bw else A.rows * A.bh) →
+        x.size = (if tr then A.rows * A.bh else A.cols * A.bw) → A.applyAxpyQ x y r alpha ali tr = some y) ∧
+    (∀ A : Banded Rat, r.size = (if tr then A.cols else A.rows) → y.size = (if tr then A.cols else A.rows) →
+        x.size = (if tr then A.rows else A.cols) → (0 < r.size ∨ 0 < x.size) → A.applyAxpyQ x y r alpha ali tr = some y) ∧
+    (∀ A : Dense Rat, r.size = (if tr then A.cols else A.rows) → y.size = (if tr then A.cols else A.rows) →
+        x.size = (if tr then A.rows else A.cols) → (0 < r.size ∨ 0 < x.size) → A.applyAxpyQ x y r alpha ali tr = some y) ∧
+    (∀ (e xv : Nat → Rat) (n : Nat) (yi : Rat),
+        |(yi + alpha * ∑ k ∈ range n, e k * xv k) - yi| ≤ epsQ * ∑ k ∈ range n, |e k| * |xv k|) := by
+  have ht : tinyRat epsQ alpha = true := (C01.tinyRat_iff _ _).mpr hal
+  have hyy : (if ali then r else y) = y := by
+    cases ali
+    · rfl
+    · exact hry rfl
+  refine ⟨?_, ?_, ?_, ?_, ?_, fun e xv n yi => tiny_envelope alpha epsQ yi hal e xv n⟩
+  · intro A h1 h2 h3
+    exact C01.csr_axpy_tiny_alpha (tinyRat epsQ) A x y r alpha ht ali tr h1 h2 h3 hry
+  · intro A h1 h2 h3
+    cases tr <;> simp_all [Cscr.applyAxpyQ, Cscr.applyAxpy]
+  · intro A h1 h2 h3
+    cases tr <;> simp_all [Bcsr.applyAxpyQ, Bcsr.applyAxpy]
+  · intro A h1 h2 h3 hne
+    have : ¬(r.size = 0 ∧ x.size = 0) := by omega
+    cases tr <;> simp_all [Banded.applyAxpyQ, Banded.applyAxpy]
+  · intro A h1 h2 h3 hne
+    have : ¬(r.size = 0 ∧ x.size = 0) := by omega
+    cases tr <;> simp_all [Dense.applyAxpyQ, Dense.applyAxpy]
+
+/-- **flat overloads = Tuple/PowerVector overloads, for every nesting and every leaf kind.** `goQ` is the model of the
+    members with flat `DenseVector` operands: it addresses the parts of `r`, `x`, `y` by the explicit offsets of the C++
+    (`DenseVector r_rest(r, rest().rows(), first().rows())` …; a wrong offset changes `goQ`). `goSQ` is the model of the
+    members with Tuple/PowerVector operands (navigation by `first()` / `rest()` on vector trees). For vectors of the
+    compatible shapes both return the same pod array, and the structured member preserves the shape of `r`.
+    Together with `metamat_apply_eq` (stated for `goQ`) this proves the structured members correct as well. -/
+theorem C01.meta_flat_eq_structured (M : MetaMat Rat) (tr : Bool) (ax : Option Rat) (x y r : MetaVec Rat) (ali : Bool)
+    (hx : M.fits tr x = true) (hy : M.fits (!tr) y = true) (hr : M.fits (!tr) r = true) :
+    (M.goSQ tr ax x y r ali).map MetaVec.flatten = M.goQ tr ax x.flatten y.flatten r.flatten ali ∧
+    ∀ r', M.goSQ tr ax x y r ali = some r' → MetaVec.sameShape r r' = true :=
+  MetaMat.goS_equiv M tr ax x y r ali hx hy hr
 
 /-- Meta-matrices, the `|alpha| < eps` branch (this includes `alpha = 0`): every leaf takes its early-out, so every
     `apply(r, x, y, alpha)` / `apply_transposed(r, x, y, alpha)` of every nesting returns `y` itself; as for the leaves
@@ -752,7 +858,33 @@ theorem C01.metamat_tiny_alpha (M : MetaMat Rat) (hM : M.wf = true) (tr : Bool) 
       have hyy : (if ali then r else y) = y := by cases ali; rfl; exact h5 rfl
       simp only [MetaMat.rows, MetaMat.cols] at h2 h3 h4
       simp [MetaMat.goQ, MetaMat.go, Dense.applyAxpy, h2, h3, h4, ht, hyy]; omega
-  have ok := MetaMat.tiny_of_leaves leaf_csr leaf_bcsr leaf_dense M hM
+  have leaf_cscr : ∀ A : Cscr Rat, (MetaMat.cscr A).TinyOk := by
+    intro A
+    constructor
+    · intro al x y r ali h1 h2 h3 h4 h5
+      have ht := (C01.tinyRat_iff epsQ al).mpr h1
+      have hyy : (if ali then r else y) = y := by cases ali; rfl; exact h5 rfl
+      simp only [MetaMat.rows, MetaMat.cols] at h2 h3 h4
+      simp [MetaMat.goQ, MetaMat.go, Cscr.applyAxpy, h2, h3, h4, ht, hyy]
+    · intro al x y r ali h1 h2 h3 h4 h5
+      have ht := (C01.tinyRat_iff epsQ al).mpr h1
+      have hyy : (if ali then r else y) = y := by cases ali; rfl; exact h5 rfl
+      simp only [MetaMat.rows, MetaMat.cols] at h2 h3 h4
+      simp [MetaMat.goQ, MetaMat.go, Cscr.applyAxpy, h2, h3, h4, ht, hyy]
+  have leaf_banded : ∀ A : Banded Rat, 0 < A.rows → (MetaMat.banded A).TinyOk := by
+    intro A hr0
+    constructor
+    · intro al x y r ali h1 h2 h3 h4 h5
+      have ht := (C01.tinyRat_iff epsQ al).mpr h1
+      have hyy : (if ali then r else y) = y := by cases ali; rfl; exact h5 rfl
+      simp only [MetaMat.rows, MetaMat.cols] at h2 h3 h4
+      simp [MetaMat.goQ, MetaMat.go, Banded.applyAxpy, h2, h3, h4, ht, hyy]; omega
+    · intro al x y r ali h1 h2 h3 h4 h5
+      have ht := (C01.tinyRat_iff epsQ al).mpr h1
+      have hyy : (if ali then r else y) = y := by cases ali; rfl; exact h5 rfl
+      simp only [MetaMat.rows, MetaMat.cols] at h2 h3 h4
+      simp [MetaMat.goQ, MetaMat.go, Banded.applyAxpy, h2, h3, h4, ht, hyy]; omega
+  have ok := MetaMat.tiny_of_leaves leaf_csr leaf_bcsr leaf_dense leaf_cscr leaf_banded M hM
   cases tr
   · exact ok.1 al x y r ali hal (by simpa using hr) (by simpa using hy) (by simpa using hx) hry
   · exact ok.2 al x y r ali hal (by simpa using hr) (by simpa using hy) (by simpa using hx) hry
@@ -778,6 +910,90 @@ theorem C01.fl_csr_row_error (M : FlModel) (A : Csr (FlNum M)) (x : Array (FlNum
           * ((List.range' (A.rowBegin i) (A.rowEnd i - A.rowBegin i)).map
               fun k => |(A.val.getD k 0).val * (x.getD (A.colInd.getD k 0) 0).val|).sum :=
   fl_rowSum_error M A x i
+
+/-- **The standard backward-error bound, stated once for the fold all row loops share**: for an abstract floating-point
+    arithmetic `M` (standard model, unit roundoff `u`) the loop `sum = 0; for k ∈ [s, e): sum = fl(sum + fl(a_k·b_k))`
+    satisfies `|fl(Σ a_k b_k) − Σ a_k b_k| ≤ γ_{n+1}·Σ|a_k||b_k|` with `γ_m = m·u/(1 − m·u)`, `n = e − s`, `(n+1)·u < 1`.
+    (`n+1` instead of `n` because the abstract model may also round the first addition onto 0.) -/
+theorem C01.fl_rowloop_gamma (M : FlModel) (a b : Nat → FlNum M) (s e : Nat)
+    (hn : ((e - s + 1 : Nat) : Rat) * M.u < 1) :
+    |(foldRange s e (fun sum k => sum + a k * b k) 0).val - ∑ k ∈ Finset.Ico s e, (a k).val * (b k).val|
+      ≤ gammaFl M.u (e - s + 1) * ∑ k ∈ Finset.Ico s e, |(a k).val| * |(b k).val| :=
+  fl_foldRange_error M a b s e hn
+
+/-- … instantiated at the CSR row loop (`Csr.rowSum` at the scalar type `FlNum M`) -/
+theorem C01.fl_csr_row_gamma (M : FlModel) (A : Csr (FlNum M)) (x : Array (FlNum M)) (i : Nat)
+    (hn : ((A.rowEnd i - A.rowBegin i + 1 : Nat) : Rat) * M.u < 1) :
+    |(A.rowSum x i).val - ∑ k ∈ Finset.Ico (A.rowBegin i) (A.rowEnd i),
+        (A.val.getD k 0).val * (x.getD (A.colInd.getD k 0) 0).val|
+      ≤ gammaFl M.u (A.rowEnd i - A.rowBegin i + 1) * ∑ k ∈ Finset.Ico (A.rowBegin i) (A.rowEnd i),
+        |(A.val.getD k 0).val| * |(x.getD (A.colInd.getD k 0) 0).val| :=
+  fl_foldRange_error M (fun k => A.val.getD k 0) (fun k => x.getD (A.colInd.getD k 0) 0) _ _ hn
+
+/-- … at the CSCR stored-row loop (`Cscr.rowSum`) -/
+theorem C01.fl_cscr_row_gamma (M : FlModel) (A : Cscr (FlNum M)) (x : Array (FlNum M)) (nz : Nat)
+    (hn : ((A.rowPtr.getD (nz + 1) 0 - A.rowPtr.getD nz 0 + 1 : Nat) : Rat) * M.u < 1) :
+    |(A.rowSum x nz).val - ∑ k ∈ Finset.Ico (A.rowPtr.getD nz 0) (A.rowPtr.getD (nz + 1) 0),
+        (A.val.getD k 0).val * (x.getD (A.colInd.getD k 0) 0).val|
+      ≤ gammaFl M.u (A.rowPtr.getD (nz + 1) 0 - A.rowPtr.getD nz 0 + 1)
+        * ∑ k ∈ Finset.Ico (A.rowPtr.getD nz 0) (A.rowPtr.getD (nz + 1) 0),
+          |(A.val.getD k 0).val| * |(x.getD (A.colInd.getD k 0) 0).val| :=
+  fl_foldRange_error M (fun k => A.val.getD k 0) (fun k => x.getD (A.colInd.getD k 0) 0) _ _ hn
+
+/-- … at the row loop of `dense_generic` (the inner fold of `Dense.kernel`, verbatim) -/
+theorem C01.fl_dense_row_gamma (M : FlModel) (A : Dense (FlNum M)) (x : Array (FlNum M)) (row : Nat)
+    (hn : ((A.cols - 0 + 1 : Nat) : Rat) * M.u < 1) :
+    |(foldRange 0 A.cols (fun sum col => sum + A.val.getD (row * A.cols + col) 0 * x.getD col 0) 0).val
+        - ∑ k ∈ Finset.Ico 0 A.cols, (A.val.getD (row * A.cols + k) 0).val * (x.getD k 0).val|
+      ≤ gammaFl M.u (A.cols - 0 + 1) * ∑ k ∈ Finset.Ico 0 A.cols, |(A.val.getD (row * A.cols + k) 0).val| * |(x.getD k 0).val| :=
+  fl_foldRange_error M (fun k => A.val.getD (row * A.cols + k) 0) (fun k => x.getD k 0) 0 A.cols hn
+
+/-- … at the band loop of `apply_banded_generic` for the bands `i ≤ a < j` of row `l` (the inner fold of
+    `Banded.bandedLoop`, verbatim) -/
+theorem C01.fl_banded_row_gamma (M : FlModel) (A : Banded (FlNum M)) (x : Array (FlNum M)) (i j l : Nat)
+    (hn : ((j - i + 1 : Nat) : Rat) * M.u < 1) :
+    |(foldRange i j (fun s a => s + A.val.getD (a * A.rows + l) 0 * x.getD (l + A.offsets.getD a 0 + 1 - A.rows) 0) 0).val
+        - ∑ a ∈ Finset.Ico i j, (A.val.getD (a * A.rows + l) 0).val * (x.getD (l + A.offsets.getD a 0 + 1 - A.rows) 0).val|
+      ≤ gammaFl M.u (j - i + 1) * ∑ a ∈ Finset.Ico i j,
+          |(A.val.getD (a * A.rows + l) 0).val| * |(x.getD (l + A.offsets.getD a 0 + 1 - A.rows) 0).val| :=
+  fl_foldRange_error M (fun a => A.val.getD (a * A.rows + l) 0)
+    (fun a => x.getD (l + A.offsets.getD a 0 + 1 - A.rows) 0) i j hn
+
+/-- … at the block-row loop of `bcsr_generic` (`Bcsr.blockRowSum`, all block shapes): two multiplications per term
+    (`add_mat_vec_mult` multiplies by its `alpha = 1`), `N = (blocks of the row)·bw` terms: `γ_{N+2}` -/
+theorem C01.fl_bcsr_blockrow_gamma (M : FlModel) (A : Bcsr (FlNum M)) (x : Array (FlNum M)) (row h : Nat)
+    (hn : ((((A.rowPtr.getD (row + 1) 0 - A.rowPtr.getD row 0) * A.bw + 2 : Nat)) : Rat) * M.u < 1) :
+    |(A.blockRowSum x row h).val -
+        (((List.range' (A.rowPtr.getD row 0) (A.rowPtr.getD (row + 1) 0 - A.rowPtr.getD row 0)).flatMap
+          fun i => (List.range' 0 (A.bw - 0)).map fun w => (i, w)).map
+          fun p => (A.val.getD (p.1 * A.bh * A.bw + h * A.bw + p.2) 0).val
+            * (x.getD (A.colInd.getD p.1 0 * A.bw + p.2) 0).val).sum|
+      ≤ gammaFl M.u ((A.rowPtr.getD (row + 1) 0 - A.rowPtr.getD row 0) * A.bw + 2) *
+        (((List.range' (A.rowPtr.getD row 0) (A.rowPtr.getD (row + 1) 0 - A.rowPtr.getD row 0)).flatMap
+          fun i => (List.range' 0 (A.bw - 0)).map fun w => (i, w)).map
+          fun p => |(A.val.getD (p.1 * A.bh * A.bw + h * A.bw + p.2) 0).val
+            * (x.getD (A.colInd.getD p.1 0 * A.bw + p.2) 0).val|).sum :=
+  fl_bcsr_blockRow_error M A x row h hn
+
+/-- **32-bit indices.** All index arithmetic of the kernels runs in the 64-bit `Index` (largest intermediates:
+    `rows + columns + 1` in `start_offset`, `noo·rows` = size of `val` for `val[a*rows + l]`, `nnz·bh·bw` for block pointers),
+    so `IT_ = uint32` only matters for what is *stored* in `row_ptr` / `col_ind` and as the row-loop variable (≤ nnz).
+    With `nnz < 2^32` and `cols ≤ 2^32` passing the index arrays through 32-bit storage is the identity, i.e. the
+    unbounded-`Nat` model is faithful (every theorem about `A` is a theorem about `A.store32`). -/
+theorem C01.index32_csr_faithful {α : Type} (A : Csr α) (hA : A.wf = true) (hnnz : A.val.size < 2 ^ 32)
+    (hcols : A.cols ≤ 2 ^ 32) : A.store32 = A :=
+  Csr.store32_eq ((Csr.wf_iff A).mp hA) hnnz hcols
+
+/-- … banded: the offsets are stored in 32 bits and `apply_banded_generic` evaluates `offsets[k] + 1 < rows` in 32 bits
+    (`uint32 + int`); both agree with the `Nat` model iff `rows + columns ≤ 2^32` (then every offset is `≤ 2^32 − 2`).
+    `firstUpper32` is the search loop with the 32-bit sum. -/
+theorem C01.index32_banded_faithful {α : Type} (A : Banded α) (hA : A.wf = true) (hdim : A.rows + A.cols ≤ 2 ^ 32) :
+    A.store32 = A ∧ A.firstUpper32 = A.firstUpper :=
+  Banded.store32_eq ((Banded.wf_iff A).mp hA) hdim
+
+/-- the size hypothesis of `index32_banded_faithful` is sharp: a band with offset `2^32 − 1` (possible as soon as
+    `rows + columns = 2^32 + 1`) makes the 32-bit sum `offsets[k] + 1` wrap to 0 -/
+theorem C01.index32_banded_wraps : trunc32 ((2 ^ 32 - 1) + 1) = 0 := by decide
 
 /-- **`r` is overwritten, never accumulated** (plain product, every leaf format): `apply(r, x)` / `apply_transposed(r, x)`
     return the same vector whatever `r` held before (stale data, the harness pre-fills 777) — the kernels run with
